@@ -107,6 +107,10 @@ impl SchedScenario {
         let dev: Rc<Dev> = Rc::new(world.dev.take().unwrap());
         let n = self.tasks.len();
         let step_ctr = Rc::new(Cell::new(0u64));
+        // invocation / response instants: one global event counter (only one task runs at a time, so the
+        // order of the events is the real-time order; an operation may be invoked and respond within
+        // one executor step)
+        let ev_ctr = Rc::new(Cell::new(0u64));
         let records: Rc<RefCell<Vec<OpRecord>>> = Rc::new(RefCell::new(vec![]));
         let vsize = world.rd.vsize;
         let mut futs: Vec<Option<Pin<Box<dyn Future<Output = ()>>>>> = Vec::new();
@@ -114,7 +118,7 @@ impl SchedScenario {
             let dev = dev.clone();
             let ops = ops.clone();
             let records = records.clone();
-            let step_ctr = step_ctr.clone();
+            let ev_ctr = ev_ctr.clone();
             futs.push(Some(Box::pin(async move {
                 for op in ops.iter() {
                     let idx = {
@@ -123,7 +127,10 @@ impl SchedScenario {
                             task: ti,
                             op: op.clone(),
                             res: OpResult { ok: false, err: None, panic: None, count: 0, words: vec![], alloc: None },
-                            inv: step_ctr.get() * 2 + 1,
+                            inv: {
+                                ev_ctr.set(ev_ctr.get() + 1);
+                                ev_ctr.get()
+                            },
                             resp: u64::MAX,
                             finished: false,
                         });
@@ -132,7 +139,8 @@ impl SchedScenario {
                     let res = run_op_async(&dev, op, vsize).await;
                     let mut r = records.borrow_mut();
                     r[idx].res = res;
-                    r[idx].resp = step_ctr.get() * 2;
+                    ev_ctr.set(ev_ctr.get() + 1);
+                    r[idx].resp = ev_ctr.get();
                     r[idx].finished = true;
                 }
             })));
